@@ -9,6 +9,12 @@ TECH = "contract-based deductive verification: VCs generated from go/ssa of /rep
 
 # property -> (category, text, design_ref, level_note)
 claimed = {
+
+ 'C01': ('proof', "Round trip by composition of the writer contracts (C02) and the reader contracts (C03) against the same independent frame specification, plus acceptance clauses: every write API accepts a valid request unless the connection has already failed (C01.accept on beginMessage/NextWriter/Write; newConn guarantees room for a 125-byte control message), WriteMessage/Close leave g_out == g_acc (every accepted byte has left in a frame) and the message automaton idle; symbolic buffer sizes, symbolic split of application writes (WBuf/WData hold between any two writer calls), symbolic transport chunking.", '6 C01', "deflate/inflate inverse assumed; the compression wrapper enters through a trusted interface contract; JSON codec assumed; composition of the two sides through the common specification is a lemma over the spec functions (rfc6455.check.smt2), the induction over calls is prose."),
+ 'C02': ('proof', "At every transport write site the bytes handed over are proved to be one well-formed frame of rfc6455.smt2 (flushFrame#assert@call:write#1:C02.hdr in the bit-vector encoding: opcode, FIN, RSV1 only from w.compress, RSV2/3 clear, MASK iff client, minimal 7/16/64-bit length, header ending at index 14; WriteControl likewise), the unmasked payload equals the application's bytes g_app[g_out..] (C02.payload, integer encoding, through maskBytes' proved contract), the frame type follows the message automaton (C02.state), the masking key bytes on the wire are the value newMaskKey returned in the same activation and newMaskKey reads crypto/rand.Reader (C02.freshkey, C02.csprng).", '6 C02', "crypto/rand.Reader assumed to be a CSPRNG; deflate stream tail handling (truncWriter) and PreparedMessage are covered by their own contracts where present, else listed in evidence."),
+ 'C09': ('proof', "Lock invariant MuInv of the write lock c.mu (closeSent => writeErr != nil, wfailed => writeErr != nil), proved at every release; every transport call site asserts held(mu) and not closeSent and not wfailed (C09.nowrite) after re-reading writeErr under the lock; writeErr is monotone (only writeFatal stores it, nil -> non-nil), modelled by havoc-with-rely at each lock acquisition; every write API returns the stored error once it is set (C09.refuse/C09.closed/C09.sticky).", '3.6, 6 C09', "soundness of the lock rule (resource invariants with monotone shared state) is a trusted meta-theorem; WritePreparedMessage is covered when its contract is present."),
+ 'C10': ('proof', "Fail-stop: a failing SetWriteDeadline/Write sets g_wfailed and writeErr under the lock (MuInv), after which no transport call site can be reached (C09.nowrite); invalid requests (bad type, control > 125, fragmented control) return before any transport call with g_wn and writeErr unchanged (C10.bad, C10.badctl); the deadline passed to the transport is c.writeDeadline resp. WriteControl's own argument (C10.deadline).", '6 C10', "io.Writer law assumed for net.Conn (short write only with an error)."),
+ 'C20': ('proof', "Pool protocol: endMessage puts exactly the current buffer once (guarded by w.err) and clears c.writeBuf (C20.same, C20.release); every exit of flushFrame/Write/Close/WriteMessage that ends the message satisfies Ended (buffer nil when pooled); beginMessage obtains a buffer only when none is held; use-after-release obligations (live) on every index/copy/append/call argument of the functions involved: the region handed to Put is marked released and must not be accessed again.", '6 C20', "BufferPool.Get/Put are trusted: Get hands an unaliased buffer of at least 139 bytes to one caller; sync.Pool internals not modelled; races between connections are C11's."),
  'C03': ('proof', "Per-call refinement of the RFC 6455 frame automaton: advanceFrame decodes every header form exactly as the independent specification rfc6455.smt2 says (opcode, FIN, RSV1, 7/16/64-bit length, mask key), messageReader.Read delivers exactly the unmasked payload bytes at the stream cursor and reports io.EOF only with no bytes remaining in a final frame, NextReader returns at the next TEXT/BINARY header; proved for a symbolic stream, symbolic chunking (the bufio contract lets every read return any legal prefix) and a symbolic pre-state constrained only by the reader invariant, so it holds after any call history by induction over calls (the induction itself is prose).", '6 C03', "bufio.Reader/io contracts assumed (extern.spec); compress/flate inverse assumed; JSON codec assumed; induction over the call sequence is prose; WriteControl and application handlers enter through trusted contracts."),
  'C04': ('proof', "advanceFrame#ensures:C04.reject is proved for the universally quantified pair of header bytes in every protocol state and role: any violation of rfc6455.smt2's `violates` predicate yields a non-nil error at that frame with only the two header bytes consumed, no handler call and one WriteControl(CloseMessage, 1002...) attempt; invalid close codes likewise; 64-bit lengths with the top bit set yield ErrReadLimit; the error is sticky in NextReader/Read.", '6 C04', "UTF-8 validity of the close reason is decided by unicode/utf8 (assumed); the 1002 close frame is an attempted WriteControl call whose own wire contract is C02's."),
  'C05': ('proof', "The fault model is the assumed io.Reader/bufio contract (any call may return any prefix together with any error, including data and EOF together), so cut offset, fault kind and chunking are universally quantified. Proved: read() never returns io.EOF; messageReader.Read returns io.EOF for the current reader only when the frame is exhausted and final; advanceFrame returns io.EOF only from the skip of an abandoned remainder or from an application handler; NextReader's first error is stored and returned unchanged afterwards without touching the transport.", '6 C05', "bufio/io contracts assumed; completeness of delivered messages follows from C03's clauses."),
